@@ -433,6 +433,10 @@ func builtinModels() map[string]modelFn {
 		}
 		e.callFunction(st, p.Func("readMIMEHeader"), c.args, nil, c.ret)
 	}
+	// the transporter's type name (reflect) is only used in a log line
+	m[hertz+"pkg/route.getTransporterName"] = func(e *Engine, st *State, c *callCtx) {
+		e.finish(st, c, e.constString("transporter"))
+	}
 	// GODEBUG settings: every setting has its default value
 	m["(*internal/godebug.Setting).Value"] = func(e *Engine, st *State, c *callCtx) { e.finish(st, c, StrVal{}) }
 	m["(*internal/godebug.Setting).IncNonDefault"] = func(e *Engine, st *State, c *callCtx) { e.finish(st, c, nil) }
